@@ -44,10 +44,10 @@ func GenFetcher(c *lib.Ctx) {
 	// completes the handshake, sends part of its answer and then stays silent
 	for i := 0; i < 2; i++ {
 		c.Comment(fmt.Sprintf("history stalled-peer %d", i))
-		c.Do("f.new")
+		c.Do("f.new host=127.0.0.2")
 		b := flat(baseMsg(c.Rand.Fork("stall"), 2, true))
 		c.Dof("f.fetch dial=1 alpn=%s host=%s stream=%s srvalpn=ntske/1 close=graceful drop=no hold=1500 ctxms=300",
-			lib.Hex([]byte("ntske/1")), hexOf("127.0.0.1"), hexList([][]byte{b[:len(b)-5]}))
+			lib.Hex([]byte("ntske/1")), hexOf("127.0.0.2"), hexList([][]byte{b[:len(b)-5]}))
 		if LastFetchElapsed > 1000*time.Millisecond {
 			c.Count("observed:stalled-peer-blocks-FetchData-past-context-deadline")
 		} else {
@@ -60,7 +60,6 @@ func GenFetcher(c *lib.Ctx) {
 
 func genFetcher(c *lib.Ctx, overQUIC bool, nh int) {
 	r := c.Rand.Fork(fmt.Sprintf("fetcher-quic=%v", overQUIC))
-	host := "127.0.0.1"
 	defPort := uint16(123)
 	newOp, quicTok, tag := "f.new", "", "tls"
 	if overQUIC {
@@ -68,13 +67,18 @@ func genFetcher(c *lib.Ctx, overQUIC bool, nh int) {
 		newOp, quicTok, tag = "f.new quic", " quic=1", "quic"
 	}
 	for hi := 0; hi < nh; hi++ {
+		// the key-exchange host: mostly an address other than the client's own source
+		// address (127.0.0.1), so that "default server = key-exchange host" cannot be met by
+		// the local end of the connection; some histories stay on 127.0.0.1
+		host := []string{"127.0.0.2", "127.1.2.3", "127.0.0.2", "127.0.0.1"}[hi%4]
+		c.Count("ke-host:" + host)
 		c.Comment(fmt.Sprintf("history %s %d", tag, hi))
 		var hist []string
 		do := func(op string) string {
 			hist = append(hist, op)
 			return c.Do(op)
 		}
-		do(newOp)
+		do(newOp + " host=" + host)
 		var st fexp
 		prevFailed := false
 		idx := 0
@@ -275,7 +279,11 @@ func genFetcher(c *lib.Ctx, overQUIC bool, nh int) {
 				}
 				c.Count("fetch:err-" + cl)
 			}
-			if prevFailed && !strings.Contains(got, "exch=true") {
+			if wasEmpty && strings.HasPrefix(got, "ok ") && strings.HasPrefix(want, "ok ") &&
+				strings.Join(strings.Fields(got)[2:4], " ") != strings.Join(strings.Fields(want)[2:4], " ") {
+				c.Fail("c20:ntp-server-chosen", "after a successful exchange NTP requests would not go to the server named in the exchange / by default the key-exchange host",
+					hist, map[string]any{"got": strings.Join(strings.Fields(got)[2:4], " "), "want": strings.Join(strings.Fields(want)[2:4], " "), "key_exchange_host": host})
+			} else if prevFailed && !strings.Contains(got, "exch=true") {
 				c.Count("oracle:no-new-exchange-after-failure")
 				c.Fail("c20:failed-exchange-leaves-state",
 					"after a failed key exchange the next FetchData opened no new connection and handed out leftover data",
